@@ -28,6 +28,7 @@ func (c *protoChecker) add(key, format string, a ...any) {
 }
 
 var (
+	gotRe    = regexp.MustCompile(` \(got ([\w.]+)\)`)
 	quotedRe = regexp.MustCompile(`"[^"]*"`)
 	numberRe = regexp.MustCompile(`\b\d+\b`)
 )
@@ -42,8 +43,13 @@ func normParseMsg(msg string) string {
 	if i := strings.Index(msg, " (rpc "); i >= 0 {
 		msg = msg[:i]
 	}
-	if i := strings.Index(msg, " (got "); i >= 0 {
-		msg = msg[:i]
+	if m := gotRe.FindStringSubmatch(msg); m != nil {
+		// keep the class of the offending map key type
+		got := m[1]
+		if !protostub.Scalars[got] {
+			got = "message-or-enum"
+		}
+		msg = gotRe.ReplaceAllString(msg, " (got "+got+")")
 	}
 	return msg
 }
